@@ -512,6 +512,8 @@ def evaluate__round(self: XPathFunction, context: ta.ContextType = None) -> ta.O
     try:
         number = decimal.Decimal(arg)
         assert isinstance(arg, (int, float, decimal.Decimal))
+        if number.as_tuple().exponent >= 0:  # type: ignore[operator]
+            return arg  # an integral value
         if number > 0:
             return type(arg)(number.quantize(decimal.Decimal('1'), rounding='ROUND_HALF_UP'))
         else:
